@@ -348,7 +348,7 @@ def _group_subscripts(ctx):
                 ctx.check(g in allgroups, 'RX-GROUPS', f"{fi.qualname}: group {g!r} exists in some regex of the package",
                           detail_bad=f"no regex defines a group {g!r}", key=f"RX-GROUPS|{fi.qualname}|any|{g}",
                           where=common.loc(fi, node))
-    ctx.floor('named group subscripts', n, 30)
+    ctx.floor('named group subscripts', n, 18)
     # unpack_twprge is fed by all seven scrubbers: each needs the groups it reads
     need = {'twpnum', 'ns', 'rgenum', 'ew'}
     sc = list(ctx.fold.get('plss_preprocess', 'SCRUBBER_REGEXES')) + [ctx.fold.get('plss_preprocess', 'OCR_SCRUBBER')]
@@ -414,7 +414,7 @@ def _int_sites(ctx):
                     safe, why = True, 'str_to_value wraps int() in try'  # covered by in_try normally
             ctx.shape(bool(safe), 'EXC', f"{fi.qualname}: {norm(c)[:40]} takes digits only", str(why),
                       why="neither inside try/except ValueError nor recognisably fed by a digit-only group")
-    ctx.floor('int() sites', n, 10)
+    ctx.floor('int() sites', n, 6)
 
 
 def _raises(ctx):
@@ -453,7 +453,7 @@ def _raises(ctx):
             ctx.check(bool(gs) or bool(facts_at(r)) or in_except or final_fallthrough, 'EXC', f"{where}: raise {typ} is conditional",
                       detail_bad=f"unconditional `{norm(r)[:60]}` on a parser path", key=f"EXC|{where}|raise-uncond|{typ}",
                       where=common.loc(fi, r))
-    ctx.floor('raise sites in the parser package', n, 20)
+    ctx.floor('raise sites in the parser package', n, 12)
     # is_multi's last-resort raise needs <kind>num None: mandatory in both regexes (see C05)
     for rn, grp in (('multisec_regex', 'secnum'), ('multilot_regex', 'lotnum')):
         rv = common.regex_by_name(ctx, rn)
